@@ -790,6 +790,65 @@ fn run_case(case: &Value, dir: &Path) -> Problems {
                     }
                 }
             }
+            "pollable" => {
+                // poll(2) for readability of a second ring's descriptor against Ring::pollable.
+                let rings = || -> Vec<RawFd> {
+                    let mut v: Vec<RawFd> = std::fs::read_dir("/proc/self/fd").unwrap().filter_map(|e| {
+                        let e = e.ok()?;
+                        let link = std::fs::read_link(e.path()).ok()?;
+                        if link.to_string_lossy().contains("io_uring") { e.file_name().to_string_lossy().parse().ok() } else { None }
+                    }).collect();
+                    v.sort_unstable();
+                    v
+                };
+                let before = rings();
+                let mut ring2 = a10::Ring::new().expect("second ring");
+                let fd2 = rings().into_iter().find(|f| !before.contains(f)).expect("descriptor of the second ring");
+                let readable = |fd: RawFd| {
+                    let mut p = libc::pollfd { fd, events: libc::POLLIN, revents: 0 };
+                    let n = unsafe { libc::poll(&mut p, 1, 0) };
+                    n == 1 && p.revents & libc::POLLIN != 0
+                };
+                let sq2 = ring2.sq();
+                let [r, w] = block_on(&mut ring2, a10::pipe::pipe(sq2)).expect("fixture: pipe on the second ring");
+                let mut stream = Box::pin(ring2.pollable(sq.clone()));
+                let mut ctx = Context::from_waker(Waker::noop());
+                let mut yielded = |ring: &mut a10::Ring, stream: &mut Pin<Box<a10::poll::Pollable>>, rounds: usize| -> Option<i32> {
+                    for _ in 0..rounds {
+                        if let Poll::Ready(x) = stream.as_mut().poll_next(&mut ctx) {
+                            return Some(match x { Some(Ok(())) => 0, Some(Err(e)) => e.raw_os_error().unwrap_or(-1), None => -2 });
+                        }
+                        ring.poll(Some(Duration::from_millis(5))).expect("Ring::poll");
+                    }
+                    None
+                };
+                // Nothing to read in the second ring: neither reports it readable.
+                differ(&mut out, "pollable before any completion", json!(yielded(ring, &mut stream, 4)), json!(if readable(fd2) { Some(0) } else { None }));
+                // A read on the second ring completes while nobody polls that ring.
+                let mut rd = Box::pin(r.read(Vec::with_capacity(8)));
+                let mut ctx2 = Context::from_waker(Waker::noop());
+                let _ = rd.as_mut().poll(&mut ctx2);
+                ring2.poll(Some(Duration::ZERO)).expect("Ring::poll");
+                differ(&mut out, "pollable while the read is in flight", json!(yielded(ring, &mut stream, 2)), json!(if readable(fd2) { Some(0) } else { None }));
+                assert_eq!(unsafe { libc::write(w.as_fd().unwrap().as_raw_fd(), b"x".as_ptr().cast(), 1) }, 1);
+                let mut seen = false;
+                for _ in 0..200 {
+                    if readable(fd2) { seen = true; break; }
+                    std::thread::sleep(Duration::from_millis(5));
+                }
+                differ(&mut out, "pollable after a completion was posted", json!(yielded(ring, &mut stream, 400)), json!(if seen { Some(0) } else { None }));
+                let data = block_on(&mut ring2, rd);
+                differ(&mut out, "the read on the second ring", json!(data.map_err(|e| e.raw_os_error().unwrap_or(-1))), json!(Ok::<Vec<u8>, i32>(b"x".to_vec())));
+                // Consumed: poll(2) says not readable, and the (edge-triggered) stream stays quiet
+                // or has ended (this kernel completes a multishot poll of an io_uring descriptor
+                // without IORING_CQE_F_MORE after the first event); it must not report readiness.
+                let after = yielded(ring, &mut stream, 2).filter(|v| *v != -2);
+                differ(&mut out, "pollable after the completion was consumed", json!(after), json!(if readable(fd2) { Some(0) } else { None }));
+                drop(stream);
+                let _ = ring.poll(Some(Duration::ZERO));
+                drop((r, w));
+                drop(ring2);
+            }
             "read_pool" | "recv_pool" | "read_multishot" | "recv_multishot" | "to_direct" | "to_file" => {
                 // Buffer selection has no system call counterpart (C08 / C15); the descriptor
                 // conversions are used by every other case of this file.
